@@ -272,7 +272,7 @@ pub fn run_history(prog: &Prog, path: &[PEvent]) -> Vec<Step> {
 /// Did this panic come from harness code (a bug of ours), as opposed to pie or an intended task panic?
 pub fn is_harness_bug(p: &PanicInfo) -> bool {
   if p.msg.starts_with(TASK_PANIC_MSG) || p.msg.starts_with(CRASH_MSG) || p.msg.starts_with(RECURSION_MSG) { return false; }
-  p.msg.starts_with("HARNESS-BUG") || p.file.contains("/verif/mc/")
+  p.msg.starts_with("HARNESS-BUG") || (p.file.contains("/mc/src/") && !p.file.contains("/repo/"))
 }
 
 /// Classification of a panic message.
